@@ -1019,7 +1019,7 @@ impl<K: El, V: El> Mon<K, V> {
                             viol!("C10", "try_reserve({n}) reported {e:?} for a failed allocation");
                         }
                         // contents unchanged: checked by the full check below
-                        self.full_check("C10", &[], "failed try_reserve")?;
+                        self.full_check("C10", &["C01"], "failed try_reserve")?;
                     }
                 }
                 out.exp.push(out.act[0]);
@@ -1049,7 +1049,7 @@ impl<K: El, V: El> Mon<K, V> {
                 if self.alloc_checks && out.tallocs > 1 {
                     viol!("C02", "shrink performed {} table allocations", out.tallocs);
                 }
-                self.full_check("C10", &[], "shrink")?;
+                self.full_check("C10", &["C01"], "shrink")?;
                 out.kind = Kind::Capacity;
             }
             _ => unreachable!(),
